@@ -325,6 +325,13 @@ def r12c(R):
                         'len', 'enumerate', 'iter', 'list', 'sorted'):
                     use = '`%s` handed to %s(): None and [...] is None' % (
                         norm(parent), norm(gp.func))
+                elif isinstance(gp, ast.Call) and parent in gp.args and \
+                        isinstance(gp.func, ast.Attribute) and \
+                        gp.func.attr == 'format':
+                    spec = _format_spec_for(A, f, gp, gp.args.index(parent))
+                    if spec:
+                        use = ('`%s` formatted with spec %r: None and x is '
+                               'None' % (norm(parent), spec))
             if use is not None:
                 R.fail(f, c, '%s() returns None when the light does not answer '
                        '(fail value of @tries); its result is used directly '
